@@ -124,7 +124,13 @@ def execute(script, failing, moves, anchor_seed=None):
         ok = token not in failing
         sched.emit('storage', o=token, ok=ok)
         if not ok:
-            raise IOError('scripted storage failure on %s' % token)
+            # what a storage raises varies: one argument, (errno, text), none at all
+            n = sum(bytearray(str(token).encode())) % 3
+            if n == 0:
+                raise IOError('scripted storage failure on %s' % token)
+            if n == 1:
+                raise OSError(28, 'No space left on device (scripted, %s)' % token)
+            raise KeyError()
 
     class SpyStorage(TapeCassette):
         def __init__(self):
